@@ -378,7 +378,7 @@ EXPR_CFG = {
     # the builtins are applied directly, so the expressions meet the same run time and the same operator table at every
     # level: the quick tier runs every case at -Q1 and, of the nested pairs, a third (rotating with the seed) also at -Q3,
     # where the optimiser's simplifier has been over the expression first
-    "quick": dict(Stride=61, Stride3=7, Core="sign", PerPair=1, NCand=16, batch=480,
+    "quick": dict(Stride=61, Stride3=7, Core="sign", PerPair=1, NCand=24, batch=480,
                   levels=lambda kind, k, seed: [1, 3] if kind == "nest" and k % 3 == seed % 3 else [1]),
     # thorough: the limits join the complete products, every third pair of the large products, four operand choices per
     # nested pair; -Q9 on all nested pairs and on a third of the flat batches (about 25 000 expressions)
